@@ -135,6 +135,21 @@ def check_property_file(ctx, pid):
                           "raw": p.stdout[-4000:]}, p.stdout
 
 
+def coqchk(ctx, pid):
+    """Re-check the compiled property file and everything it depends on with the independent
+    checker; it must report no axiom, no type-in-type, no unsafe fixpoint, no assumed positivity."""
+    cmd = ["timeout", "3000", "coqchk", "-silent", "-o"] + coqrun.COQ_LOADPATH + ["Hera.Properties." + pid]
+    p = subprocess.run(cmd, cwd=COQ_DIR, stdout=subprocess.PIPE, stderr=subprocess.STDOUT, text=True)
+    summary = p.stdout[p.stdout.find("CONTEXT SUMMARY"):] if "CONTEXT SUMMARY" in p.stdout else p.stdout[-1500:]
+    items = re.findall(r"\* ([^:\n]+):\s*(.*?)\n\s*\n", summary + "\n\n", flags=re.S)
+    info = {k.strip(): " ".join(v.split()) for k, v in items}
+    ok = p.returncode == 0 and all(info.get(k) == "<none>" for k in (
+        "Axioms", "Constants/Inductives relying on type-in-type",
+        "Constants/Inductives relying on unsafe (co)fixpoints", "Inductives whose positivity is assumed"))
+    ctx.log("coqchk %s: %s %s" % (pid, "ok" if ok else "FAILED", info))
+    return ok, info if info else {"raw": summary[-1500:]}
+
+
 AUDIT_RE = re.compile(r"\b(Admitted|admit|Axiom|Parameter|Conjecture|Unset Guard|bypass_check|type-in-type|impredicative-set)\b")
 
 
@@ -239,9 +254,8 @@ def run_check(mod, argv):
             bad = audit_sources()
             if bad:
                 breaks.append({"kind": "audit", "detail": bad})
-            chk = getattr(mod, "coqchk", None)
-            if chk and not breaks:
-                okc, detail = chk(ctx)
+            if not breaks:
+                okc, detail = coqchk(ctx, mod.PID)
                 assumptions_info["coqchk"] = detail
                 if not okc:
                     breaks.append({"kind": "coqchk", "detail": detail})
